@@ -26,7 +26,14 @@ class LocalDeme(AbstractDeme):
 
     def run_metaepoch(self, _) -> None:
         x0 = self._sprout_seed.genome
-        fun = self._problem.evaluate
+        # scipy always minimises: on a maximisation problem it is handed the negated objective.
+        if self._problem.maximize:
+
+            def fun(x):
+                return -self._problem.evaluate(x)
+
+        else:
+            fun = self._problem.evaluate
 
         result = sopt.minimize(
             fun,
@@ -52,5 +59,5 @@ class LocalDeme(AbstractDeme):
 
     def _history_callback(self, intermediate_result) -> None:
         ind = Individual(np.copy(intermediate_result.x), problem=self._problem)
-        ind.fitness = intermediate_result.fun
+        ind.fitness = -intermediate_result.fun if self._problem.maximize else intermediate_result.fun
         self._run_history.append(ind)
